@@ -3,13 +3,13 @@ NEXT ONext
 CONSTANTS
   Species = {"A", "B", "C", "D"}
   Catalog <- Cat16
-  MaxR = 3
+  MaxR = 2
   KVals <- K3
-  Orders <- OrdOne
+  Orders <- OrdTwo
   FullOrder = FALSE
   Points <- Pts1
-  Feeds <- NoFeeds
-  Configs <- CfgThree
+  Feeds <- Fd1
+  Configs <- CfgSym
   Comp <- CompDef
 INVARIANT FreeVsInlinedAgree
 INVARIANT ConfigOnlyChangesFreeSymbols
